@@ -1035,6 +1035,10 @@ def lock_acquire(ctx, ref, node):
         ctx.oblige('lock.%s.no-self-deadlock' % o.meta['name'], held == 0, node)
     o.f['held'] = z3.simplify(held + 1)
     ctx.event('acquire', ref)
+    hk = ctx.hooks.get('acquired')
+    if hk:
+        # environment step of a contract: what other threads may have done while the lock was free
+        hk(ctx, ref, node)
 
 
 def lock_release(ctx, ref, node):
